@@ -17,7 +17,7 @@ from vf import refmodel, specs
 from vf import strategies as S
 from vf.common import import_emsarray
 from vf.props import c05
-from vf.props._util import same_number
+from vf.props._util import same_number, track
 from vf.runner import Sub
 
 PROPERTY = "C12"
@@ -183,6 +183,8 @@ def check_case(case, ctx):
             tdim = spec["time"]["dim"]
             picked_time = case["scalar_time"] % specs.dim_sizes(spec)[tdim]
             ds = ds.isel({tdim: picked_time})
+        if picked_time is None:
+            track(spec, ds)
         conv = specs.bind_convention(spec, ds)
         before_polygons = list(conv.polygons)
         depth_names = [dc["name"] for dc in spec["depths"]]
